@@ -43,7 +43,7 @@ MECHANISMS = [
 ]
 REQUIRED_MONITORS = ['affine_oracle', 'round_trip', 'identity', 'transitivity', 'array_vs_scalar', 'array_kinds', 'large_array_vs_pieces', 'refusal_cross_dimension',
                      'lis_affine_oracle', 'lis_round_trip', 'lis_transitivity', 'lis_refusal',
-                     'engval_arithmetic', 'engval_comparison', 'engval_refusal', 'engval_history', 'lis_other_entry_points', 'eventlog:LIS.Units.convert']
+                     'array_result_kept_after_next_call', 'engval_arithmetic', 'engval_comparison', 'engval_refusal', 'engval_history', 'lis_other_entry_points', 'eventlog:LIS.Units.convert']
 MIN_NONTRIVIAL = {'quick': 700000, 'thorough': 3500000}
 TIMEOUT_S = {'quick': 400, 'thorough': 3000}
 NSHARDS = 16
@@ -274,6 +274,16 @@ class Osdd:
                 copy_ok = np.array_equal(src, keep) and out is not src
                 # reshape(-1) walks the logical (row-major) order whatever the memory layout: same order as vals
                 ares = [float(x) for x in np.asarray(out).reshape(-1)]
+                # another channel of the same shape through the same pair (as a caller converting the channels of one log does): the
+                # earlier result is the caller's own array and stays what it was
+                other = U.convert_array(keep * 0.5 + 3.0, ua, ub)
+                still = [float(x) for x in np.asarray(out).reshape(-1)]
+                rec.mon('array_result_kept_after_next_call')
+                if repr(still) != repr(ares) or np.shares_memory(out, other):
+                    self.rep('array_result_kept_after_next_call', 'earlier-result-changed',
+                             'convert_array(%s -> %s): after converting another array of the same shape the first result %s' % (
+                                 a.code, b.code, 'shares memory with the second' if np.shares_memory(out, other) else 'holds other values'),
+                             {'unit_from': udesc(a), 'unit_to': udesc(b), 'values': vals, 'first_result': ares[:8], 'first_result_now': still[:8]})
                 inp = keep.copy(order='K') if mode not in (2, 4) else src
                 ret = U.convert_array_inplace(inp, ua, ub)
                 ires = [float(x) for x in np.asarray(inp).reshape(-1)]
